@@ -13,7 +13,7 @@ The oracle demands a (culture, shape) only when that culture's own digit regex d
 import itertools
 from decimal import Decimal, Context, ROUND_HALF_EVEN, localcontext, InvalidOperation, DivisionByZero
 
-from lib import common, numfraccorr
+from lib import common, numfraccorr, numextractcorr
 from lib.common import cps, uncps
 from corr import numlib
 from corr.numlib import CULTURES
@@ -21,7 +21,7 @@ from corr.numlib import CULTURES
 PROP = 'C03'
 LEVEL = 'proof'
 PROPS_MODULES = ['RTV.Props.C03', 'RTV.Props.C03Frac']
-GEN = ['nummaps', 'chartables', 'numfrac']
+GEN = ['nummaps', 'chartables', 'numfrac', 'numregex', 'regexes']
 REQUIRED_THEOREMS = ['digital_exact', 'digital_exact_neg', 'format_canonical', 'number_literal', 'percent_literal',
                      'digital_round16', 'separators_distinct', 'comma_dot_cultures', 'progressive_rounding_witness',
                      'digital_exact_literal', 'digital_exact_grouped', 'digital_exact_decimal',
@@ -398,11 +398,13 @@ def correspond(ctx):
     unit_parser(ctx, lits)
     pipeline(ctx, lits)
     numfraccorr.run(ctx)      # suffix / point / fraction / power paths (RTV.Model.NumFrac, Props/C03Frac)
+    numextractcorr.run(ctx)   # the extraction front end for digit literals (RTV.Model.NumExtract, Props/C03Extract)
     ctx.extra['literals_per_culture'] = len(lits)
 
 
 def search(ctx, proof_problems):
     """A proof obligation about the regenerated configuration broke: evaluate the property on every literal with
     the model's current configuration and on the implementation; `correspond` (which always runs first) has already
-    replayed all literal shapes, so any concrete failure is in ctx.breaks. Nothing further to enumerate."""
-    return
+    replayed all literal shapes, so any concrete failure is in ctx.breaks.  The extraction front end additionally
+    evaluates the MODEL extractor (regenerated regexes) on literals of up to 26 digits and replays what it loses."""
+    numextractcorr.search(ctx, proof_problems)
